@@ -12,7 +12,7 @@
 (*        TLC schedule executed with all documents alive in one process;    *)
 (*        views = the view of EVERY document after the step; fin = the call *)
 (*        of d returned in this step; busy = documents inside a call        *)
-(*  [ev "race", case, sites, fatal, views]   the programs run free on       *)
+(*  [ev "race", case, sites, fatal, views, rets]   the programs run free on *)
 (*        separate goroutines under the race detector                       *)
 (* view = [fnCount, enCount, body, styles, aux, parts, saved] (canonical    *)
 (* projection; parts/saved are sequences of [k kind, n name, h digest]).    *)
@@ -114,9 +114,12 @@ TRace == /\ l <= Len(Trace) /\ Trace[l].ev = "race"
          /\ LET e == Trace[l]
                 D == {d \in DOMAIN e.views : LastPos(d) >= 0}
                 T == e.defs @@ vt
+                \* documents one of whose calls returned something else than when run alone are not compared further
+                B == {d \in D : \E k \in DOMAIN e.rets[d] : <<d, k>> \in DOMAIN sv /\ e.rets[d][k] # sv[<<d, k>>].ret}
                 sigs == {<<"C07", "race", s>> : s \in SetOf(e.sites)}
                         \cup (IF e.fatal # "" THEN {<<"C07", "race", "fatal:" \o e.fatal>>} ELSE {})
-                        \cup UNION {{<<"C07", "concurrent", f>> : f \in News(DiffId(T, e.views[d], sv[<<d, LastPos(d)>>].view), {})} : d \in D}
+                        \cup (IF B # {} THEN {<<"C07", "concurrent", "ret">>} ELSE {})
+                        \cup UNION {{<<"C07", "concurrent", f>> : f \in News(DiffId(T, e.views[d], sv[<<d, LastPos(d)>>].view), {})} : d \in D \ B}
             IN /\ vt' = T
                /\ wit' = AddWit(wit, sigs, e.case)
          /\ UNCHANGED <<sv, pos, div, der>> /\ l' = l + 1
